@@ -42,7 +42,9 @@ def run(ctx):
     ctx.floor("C07.calls-after-open-quote", n, 1)
     parsers.fallthrough_skips_member(ctx, s, parsers.FILTER_PARSER)
     parsers.skipper_first_set(ctx, s)
+    escaping.unescape_writes(ctx, s)
     emission_order(ctx, s, fn)
+    no_decision_on_earlier_members(ctx, s, fn)
     # writer
     w = ctx.fn("pocket_types::Filter::as_json")
     wa = ctx.E.an(w)
@@ -141,3 +143,67 @@ def emission_order(ctx, s, fn):
     s.add("S-ORDER", fn, "layout-order-emission", "ids<authors<kinds<tags", fn.sp, PROVED if (ok and after) else VIOLATION,
           "after the member loop the arrays are written in layout order, whatever order the members were found in" if (ok and after) else
           "the arrays are not emitted in fixed layout order after the member loop: the binary form depends on member order")
+
+
+def _content_reads(ctx, v, buf):
+    """sub-values of v that read the contents of the buffer `buf` (not its length, and not a sub-slice handed to a
+    callee through a &mut parameter, which is a write destination)"""
+    hits = []
+
+    def rec(x):
+        if not isinstance(x, tuple) or not x:
+            return
+        if isinstance(x[0], str):
+            if x[0] == "call":
+                name = x[1].rsplit("::", 1)[-1]
+                if name in ("len", "is_empty"):
+                    return
+                f = ctx.F.fns.get(x[1])
+                for i, a in enumerate(x[2]):
+                    if f is not None and i < len(f.inputs) and f.inputs[i]["s"].startswith("&mut"):
+                        continue
+                    rec(a)
+                return
+            if x[0] in ("slice", "index", "aload", "load") and contains_value(x[1], lambda y: y == buf):
+                hits.append(x)
+                return
+            for y in x[1:]:
+                rec(y)
+        else:
+            for y in x:
+                rec(y)
+    rec(v)
+    return hits
+
+
+def no_decision_on_earlier_members(ctx, s, fn):
+    """S-ORDER: the only state the member loop carries from one member to the next is the seen-flags; no branch depends on
+    what an earlier member wrote into the output buffer (that would make acceptance depend on member order)"""
+    an = ctx.E.an(fn)
+    buf = ("param", 2)
+    n = 0
+    bad = 0
+    for b, info in sorted(an.term.items()):
+        if info["kind"] != "switch":
+            continue
+        n += 1
+        reads = _content_reads(ctx, info["discr"], buf)
+        if not reads:
+            continue
+        bad += 1
+        flagged = False
+        for f in ctx.E.facts(fn, b):
+            if not (isinstance(f[1], tuple) and f[1] and f[1][0] == "bin" and f[1][1] == "BitAnd"):
+                continue
+            k = f[2] if len(f) > 2 else None
+            kv = k[1] if isinstance(k, tuple) and k and k[0] == "const" else k
+            if (f[0] in ("eq", "eqc") and kv not in (0, None)) or (f[0] in ("ne", "nec") and kv == 0):
+                flagged = True      # "member was seen"
+        s.add("S-ORDER", fn, "decision-reads-earlier-member", s.show(reads[0], fn)[:50], info["sp"], UNDECIDED if flagged else VIOLATION,
+              "a branch compares against a value an earlier member wrote to the output; it is taken only when that member was seen - "
+              "whether the sibling arm makes the symmetric test is not decided here" if flagged else
+              "a branch depends on what an earlier member wrote into the output buffer, without testing that the member was seen: "
+              "acceptance then depends on member order", b)
+    if not bad:
+        s.add("S-ORDER", fn, "decision-reads-earlier-member", "none", fn.sp, PROVED,
+              "%d branch conditions examined: none reads the contents of the output buffer" % n)
